@@ -285,6 +285,7 @@ pub fn gen_ws(rng: &mut Rng, o: &WsOpts) -> WsSpec {
                 files.push(PyFile { rel: join_rel(d, "__init__.py"), items: vec![] });
             }
         }
+        let helper_refs: Vec<(String, Vec<String>)> = helpers.iter().map(|h| (h.rel.clone(), fixture_names_of(h))).collect();
         files.extend(helpers);
         // test files
         let nt = if d.is_empty() { rng.below(2) } else { rng.range(0, 2) };
@@ -294,7 +295,22 @@ pub fn gen_ws(rng: &mut Rng, o: &WsOpts) -> WsSpec {
             fo.self_dep_per_mille = o.self_dep_per_mille * 2;
             fo.dup_names = o.same_file_dups;
             fo.scopes = o.scopes;
-            let items = gen_items(rng, &names, true, &fo);
+            let mut items = gen_items(rng, &names, true, &fo);
+            // a test module importing fixtures itself (they are visible in that module only)
+            if o.imports && !helper_refs.is_empty() && rng.chance(200) {
+                let (h, hn) = rng.pick(&helper_refs).clone();
+                if let Some(m) = module_ref(rng, d, &h) {
+                    let it = if hn.is_empty() || rng.chance(500) {
+                        Item::Star { module: m, target: Some(h) }
+                    } else {
+                        let mut ns = hn.clone();
+                        rng.shuffle(&mut ns);
+                        ns.truncate(rng.range(1, ns.len()));
+                        Item::Import { module: m, names: ns, target: Some(h) }
+                    };
+                    items.insert(0, it);
+                }
+            }
             let tag = if d.is_empty() { "root".to_string() } else { d.replace('/', "_") };
             let rel = if rng.chance(800) { join_rel(d, &format!("test_{}_{}.py", tag, k)) } else { join_rel(d, &format!("{}_{}_test.py", tag, k)) };
             files.push(PyFile { rel, items });
